@@ -26,7 +26,7 @@ Case(f, cn, g, s, qs) ==
   IN [F EXCEPT !.cell = LCell(cn),
                !.grp = [i \in 1..Len(F.q) |-> Grp(g, i)],
                !.pos = [i \in 1..Len(F.q) |-> Shift(s, F.pos[i])],
-               !.q = [i \in 1..Len(F.q) |-> IF qs = "neg" THEN -F.q[i] - 64 ELSE F.q[i]]]
+               !.q = [i \in 1..Len(F.q) |-> IF qs = "neg" THEN -F.q[i] - 64 ELSE IF qs = "zero" /\ i = 1 THEN 0 ELSE F.q[i]]]   \* "zero": the first atom is neutral
 
 \* twelve atoms, each of its own type, chained by eleven bonds each of its own type: type ids with two digits
 Many(style) ==
@@ -45,7 +45,7 @@ Fine(f) == LET F == Case(f, "fine", "contig", "in", "pos")
            IN [F EXCEPT !.pos = [i \in 1..Len(F.pos) |-> <<1000000 * F.pos[i][1], 1000000 * F.pos[i][2], 1000000 * F.pos[i][3]>>]]
 Init == \/ \E st \in {"full", "atomic"} : c = Many(st)
         \/ \E f \in FragNames, st \in {"full", "atomic"} : c = [K |-> Fine(f), style |-> st, name |-> <<f, "fine", "contig", "in", "pos">>]
-        \/ \E f \in FragNames, cn \in CellNames, g \in {"zero", "contig", "gaps", "high"}, s \in {"in", "neg", "far"}, qs \in {"pos", "neg"},
+        \/ \E f \in FragNames, cn \in CellNames, g \in {"zero", "contig", "gaps", "high"}, s \in {"in", "neg", "far"}, qs \in {"pos", "neg", "zero"},
            st \in {"full", "atomic"} :
           c = [K |-> Case(f, cn, g, s, qs), style |-> st, name |-> <<f, cn, g, s, qs>>]
 Next == UNCHANGED c
